@@ -1,4 +1,14 @@
 CHECKS = {
+ "C18": {
+  "text": "Generated clouds (1..300 points, 1..6 dims, feature channels, outliers at arbitrary rows, integer-grid clouds with ties, batches "
+          "where documented) against numpy brute-force definitions: knn values/indices, nbr_filter mask, voxel_filter centroids / members "
+          "(voxel-robust construction), knn_filter under both readings of 'neighbours', random_filter distinctness, permutation "
+          "equivariance of all of them; camera helpers (both focal signs, batched intrinsics / extrinsics) as mutual inverses with exact "
+          "zero reprojection error; homogeneous round trip. Exploration.",
+  "design_ref": "DESIGN.md section 3, C18",
+  "note": "Reference: numpy brute force written from the definitions (self-tested against a second loop formulation and the docstring examples); radii never within 1e-9 of a pairwise distance.",
+  "technique": "property-based testing: Hypothesis generators against brute-force reference implementations and metamorphic (permutation) relations",
+ },
  "C10": {
   "text": "Systems built by construction A = U diag(s) V^T (sizes 1..40, rectangular, rank-deficient, cond to 1e8, batches) so the exact "
           "minimum-norm least-squares solution is known: PINV vs it, LSTSQ via the normal equations, Cholesky on SPD and the fail-loudly "
